@@ -805,4 +805,51 @@ theorem endScopeV_flowInv {s : State} (hi : FlowInv s) (n u nm : Nat) (s' : Stat
         obtain ⟨e1, _, e3⟩ := stopActions_frame _ _ _ h
         exact h2'.of_flows_eq e3 e1
 
+/-! ### the outermost repaired calls are sequences of primitive steps (for `StopInv` / `stop_at_most_once`) -/
+
+theorem abortFlowV_steps (n : Nat) (s : State) (u : Nat) (d : Bool) (s' : State) (h : abortFlowV n s u d = .ok s') :
+    Steps true s s' := by
+  cases n with
+  | zero => simp [abortFlowV] at h
+  | succ n =>
+    have hrec : ∀ s c s', recV n s c = .ok s' → Steps true s s' := fun s c s' h => (abortFlowV_true_steps n s c s' h).mono
+    simp only [abortFlowV] at h
+    split at h
+    · cases h
+    · next s1 h1 => cases h; exact deactivatePhase_steps _ hrec _ _ _ _ _ h1
+    · next s1 h1 =>
+      refine (deactivatePhase_steps _ hrec _ _ _ _ _ h1).trans ?_
+      rcases abortBodyV_steps _ hrec _ _ _ _ h with st | ⟨s2, hs, hr⟩
+      · exact st
+      · exact hs.trans (restart_steps _ _ _ _ hr)
+
+theorem abortTopV_steps (n : Nat) (s : State) (u : Nat) (d : Bool) (s' : State) (h : abortTopV n s u d = .ok s') :
+    Steps true s s' :=
+  (Steps.single (.busy [])).trans (abortFlowV_steps n _ u d s' h)
+
+theorem finishFlowV_steps (n : Nat) (s : State) (u : Nat) (d : Bool) (s' : State) (h : finishFlowV n s u d = .ok s') :
+    Steps true s s' := by
+  have hrec : ∀ s c s', recV n s c = .ok s' → Steps true s s' := fun s c s' h => (abortFlowV_true_steps n s c s' h).mono
+  refine (Steps.single (.busy [u])).trans ?_
+  unfold finishFlowV at h
+  split at h
+  · cases h
+  · next s1 h1 => cases h; exact deactivatePhase_steps _ hrec _ _ _ _ _ h1
+  · next s1 h1 => exact (deactivatePhase_steps _ hrec _ _ _ _ _ h1).trans (finishBody_steps _ hrec _ _ _ _ h)
+
+theorem endScopeV_steps (n : Nat) (s : State) (u nm : Nat) (s' : State) (h : endScopeV n s u nm = .ok s') :
+    Steps true s s' := by
+  unfold endScopeV at h
+  split at h
+  · cases h
+  · next f hf =>
+    split at h
+    · cases h
+    · dsimp only at h
+      split at h
+      · cases h
+      · next s2 h2 =>
+        refine .cons (.flow (f' := { f with scopes := scopeErase nm f.scopes }) hf ⟨rfl, rfl, fun h => h, rfl, rfl, Or.inl rfl, fun _ h => h, by simp⟩) ?_
+        exact (scopeFlowLoop_steps _ (fun s c s' h => abortTopV_steps n s c false s' h) _ _ _ h2).trans (stopActions_steps _ _ _ h)
+
 end NemoVerif.Lifetime
